@@ -246,6 +246,11 @@ func init() {
 			ex.recording = false
 			return nil
 		},
+		z + "RacePairFresh": func(ex *Exec, fn *ssa.Function, args []Value, site token.Pos) Value {
+			// mk builds a fresh shared state and returns the two operations on it
+			pair := ex.callValue(args[1], nil, site).(TupleV)
+			return intrinsics[z+"RacePair"](ex, fn, []Value{args[0], pair[0], pair[1]}, site)
+		},
 		z + "RacePair": func(ex *Exec, fn *ssa.Function, args []Value, site token.Pos) Value {
 			label := ex.argStr(args[0])
 			ex.raceSeq++
